@@ -1,22 +1,44 @@
-import CelmaVerif.Lemmas.FixedStringStep
-import CelmaVerif.Lemmas.FixedStringC11Mut
-import CelmaVerif.Lemmas.FixedStringC11Rep
-import CelmaVerif.Lemmas.FixedStringC11Obs
+import CelmaVerif.Lemmas.FixedStringC11All
 /-
   C11 — a fixed-capacity string equals `std::string` cut off at the capacity.
-  Property theorems only (helper lemmas: Lemmas/FixedStringC11{Mut,Rep,Obs}.lean).
+  Property theorems only (helper lemmas: Lemmas/FixedStringC11*.lean).
 
-  `abs s = s.buf.take s.len` is the text a fixed string holds.  The right-hand sides are the textbook
-  `std::string` results (`Model/StdString.lean`, validated against libstdc++ on every run), cut off at the
-  capacity `c.L` for the mutators.  The theorems are stated for the implementation functions of
-  fixed_string.hpp (`insert` x2, `erase`, `push_back`, `pop_back`, `appendImpl`, `replaceImpl`, `assign`,
-  `sprintf`, `swap`, `fullCompareImpl`, `startsWithImpl`, `endsWithImpl`, `substr`, `copy`, `at`, `str`, the
-  iterators, `==`/`!=`) to which the ~110 public overloads delegate; the delegations themselves, and the
-  operations not listed here (`compare` with positions, `contains`, the find family, `c_str` readers), are
-  covered by the correspondence run and its std::string oracle only — see `level_note` in the manifest.
+  `abs s = s.buf.take s.len` is the text a fixed string holds.  `spec` (Model/FixedString.lean) maps every
+  public operation to the textbook `std::string` result (`Model/StdString.lean`, validated against libstdc++
+  on every run) on that text; `inDomain` is the documented domain.  `C11_step` is the property for the whole
+  operation language (one constructor per public overload, delegations included); the theorems after it
+  restate the central cases for the shared implementation functions in readable form.
 -/
 namespace CelmaVerif.Props.C11
 open CelmaVerif CelmaVerif.FixedString
+
+/-! ### every operation -/
+
+/-- C11, one step of any public operation.  For every capacity (`CfgOK`: `L + 1` fits `size_t`, `L` fits the
+    length type), every well-formed state of the three objects, every operation `op` of the operation language
+    (≈ 140 overload shapes: constructors, assignment, insert ×10, erase ×5, push/pop, append ×14, sprintf,
+    replace ×15, swap, element access, iteration in both directions, compare ×9, starts_with/ends_with/contains
+    ×12, substr, copy, the six find families × 9 overloads, `==`, `!=`) whose arguments satisfy the caller
+    contract (`ArgsOK`) and lie in the documented domain (`inDomain`): whenever the operation returns,
+    `std::string` is defined on the same arguments, the text of the object afterwards is the `std::string`
+    result cut off at the capacity (`t.take c.L`; observers leave the text unchanged), and the value returned is
+    the value `std::string` returns (for the five overloads returning an iterator only the text is compared).
+    Together with `C10_safe_wf` (the operation does return, or throws exactly where `at()` may) this is the
+    refinement of the specification on the domain. -/
+theorem C11_step (c cu : Cfg) (hc : CfgOK c) (w : World) (hw : WFW c cu w) (op : Op) (ha : ArgsOK c w op)
+    (hd : inDomain (npos c) w op = true) :
+    ∀ w' o, step c cu w op = .ok (w', o) →
+      ∃ t o', spec id (npos c) w op = .ok (t, o') ∧ abs w'.s = t.take c.L ∧ (CmpOut op → o = o') :=
+  c11_step hc hw op ha hd
+
+/-- ... and along every history: after any sequence of operations on fresh objects (caller contract `HistOK`),
+    the next operation with in-domain arguments again behaves like `std::string` cut at the capacity. -/
+theorem C11_after_history (c cu : Cfg) (hc : CfgOK c) (hcu : CfgOK cu) (ops : List Op)
+    (hh : HistOK c cu (World.init c cu) ops) :
+    ∃ w, run c cu (World.init c cu) ops = .ok w ∧
+      ∀ op, ArgsOK c w op → inDomain (npos c) w op = true → C11Holds c cu w op := by
+  obtain ⟨w, h1, h2⟩ := run_wf hc hcu ops _ (init_wf c cu) hh
+  exact ⟨w, h1, fun op ha hd => c11_step hc h2 op ha hd⟩
 
 /-! ### modifying operations: content = std::string result cut at the capacity -/
 
@@ -199,6 +221,9 @@ theorem C11_iteration (c : Cfg) (hc : CfgOK c) (s : FStr) (hs : WF c s) :
 /-! ### the hypotheses are satisfiable, the statements are not vacuous -/
 
 example : WF ⟨4, 2 ^ 64, 256⟩ ⟨[97, 98, 99, 0, 7], 3⟩ := by decide
+/-- `inDomain` and `ArgsOK` are satisfiable for a mutator with a non-trivial effect: `replace( 1, 1, "XYZ")` -/
+example : inDomain (npos ⟨4, 2 ^ 64, 256⟩) ⟨⟨[97, 98, 99, 0, 7], 3⟩, fresh ⟨4, 2 ^ 64, 256⟩, fresh ⟨9, 2 ^ 64, 256⟩⟩
+    (.repCCP 1 1 [88, 89, 90, 0]) = true := by decide
 /-- replacing 1 character by 3 in a string of capacity 4: "abc" -> "aXYZ" (the std::string result "aXYZc" cut) -/
 example : replaceImpl ⟨4, 2 ^ 64, 256⟩ ⟨[97, 98, 99, 0, 7], 3⟩ 1 1 [88, 89, 90, 0] 0 3 = .ok ⟨[97, 88, 89, 90, 0], 4⟩ := by
   rfl
